@@ -32,6 +32,8 @@ type Config struct {
 	Quiesce      func(e *eng.Engine, g *gen.Gen)
 	OnEngine     func(e *eng.Engine)
 	GenesisTime  time.Time // zero = gen.GenesisTime
+	// Intercept is called before a generated transaction is executed (C10 gas-fault enumeration).
+	Intercept func(e *eng.Engine, tx *eng.Tx)
 }
 
 type Result struct {
@@ -100,6 +102,9 @@ func Exec(c Config) (res Result) {
 		tx := g.Next()
 		if tx == nil {
 			continue
+		}
+		if c.Intercept != nil {
+			c.Intercept(e, tx)
 		}
 		e.Exec(*tx)
 		sinceQ++
